@@ -93,6 +93,7 @@ class H11Protocol:
         self.app = app
         self.can_read = context.event_class()
         self.client = client
+        self.closed = False
         self.config = config
         self.connection: Union[h11.Connection, H11WSConnection] = h11.Connection(
             h11.SERVER, max_incomplete_event_size=self.config.h11_max_incomplete_size
@@ -171,6 +172,10 @@ class H11Protocol:
                     await self._check_protocol(event)
                     await self._create_stream(event)
                 elif event is h11.PAUSED:
+                    if self.closed:
+                        # The connection is being closed, the
+                        # pipelined request will not be processed.
+                        break
                     await self.can_read.clear()
                     await self.can_read.wait()
                 elif isinstance(event, h11.ConnectionClosed) or event is h11.NEED_DATA:
@@ -284,6 +289,7 @@ class H11Protocol:
                 await self.can_read.set()
                 await self.send(Updated(idle=True))
         else:
+            self.closed = True
             await self.can_read.set()
             await self.send(Closed())
 
